@@ -470,3 +470,54 @@ func sliceBase(info *types.Info, e ast.Expr) (string, int) {
 	}
 	return exprStr(e), 0
 }
+
+// decodingOfP is decodingOf that also follows a one-purpose decoder helper of the module (decShort(data[:2])): the
+// helper's widest decodable return expression over its only parameter gives width, byte order and the innermost
+// conversion (the helper's result type decides the sign extension of the caller's conversion); base and offset are
+// those of the argument.
+func decodingOfP(p *Program, info *types.Info, e ast.Expr) (fixedDecoding, bool) {
+	if d, ok := decodingOf(info, e); ok {
+		return d, true
+	}
+	cur := ast.Unparen(e)
+	for {
+		c, ok := cur.(*ast.CallExpr)
+		if !ok {
+			return fixedDecoding{}, false
+		}
+		if tv, isT := info.Types[c.Fun]; isT && tv.IsType() && len(c.Args) == 1 {
+			cur = ast.Unparen(c.Args[0])
+			continue
+		}
+		h := p.FuncOf(calleeOf(info, c))
+		if h == nil || h.Decl.Body == nil || len(c.Args) != 1 || h.Decl.Type.Params.NumFields() != 1 {
+			return fixedDecoding{}, false
+		}
+		pn := paramObj(h.Pkg.TypesInfo, h.Decl.Type, 0)
+		var dec fixedDecoding
+		okDec := false
+		ast.Inspect(h.Decl.Body, func(x ast.Node) bool {
+			if rs, ok := x.(*ast.ReturnStmt); ok && len(rs.Results) == 1 {
+				if dd, ok := decodingOf(h.Pkg.TypesInfo, rs.Results[0]); ok && dd.Width > dec.Width && pn != nil && dd.Base == pn.Name() {
+					dec, okDec = dd, true
+				}
+			}
+			return true
+		})
+		if !okDec {
+			return fixedDecoding{}, false
+		}
+		base, off := sliceBase(info, c.Args[0])
+		if dec.Conv == "" || isUnsignedName(dec.Conv) {
+			// the helper's result type still decides how the caller's widening conversion extends
+			if rt := h.Decl.Type.Results; rt != nil && len(rt.List) == 1 {
+				dec.Conv = exprStr(rt.List[0].Type)
+			}
+		}
+		dec.Base, dec.Offset = base, off+dec.Offset
+		dec.How = h.Name + " (" + dec.How + ")"
+		return dec, true
+	}
+}
+
+func isUnsignedName(s string) bool { return strings.HasPrefix(s, "uint") || s == "byte" }
